@@ -48,6 +48,50 @@ def prove(pc, goal, timeout_ms=None, extra=()):
     return 'unknown', None, ms, 'z3+cvc5'
 
 
+def _symbols(t, cache):
+    i = t.get_id()
+    if i in cache:
+        return cache[i]
+    out = set()
+    stack = [t]
+    seen = set()
+    while stack:
+        x = stack.pop()
+        if x.get_id() in seen:
+            continue
+        seen.add(x.get_id())
+        if z3.is_app(x) and x.num_args() == 0 and x.decl().kind() == z3.Z3_OP_UNINTERPRETED:
+            out.add(x.decl().name())
+        if z3.is_quantifier(x):
+            stack.append(x.body())
+        else:
+            stack.extend(x.children())
+    cache[i] = out
+    return out
+
+
+def cone_of_influence(pc, goal):
+    """Conjuncts of pc that share (transitively) an uninterpreted constant with the goal."""
+    cache = {}
+    syms = set(_symbols(goal, cache))
+    rest = [(c, _symbols(c, cache)) for c in pc]
+    keep = []
+    changed = True
+    while changed:
+        changed = False
+        nxt = []
+        for c, sy in rest:
+            if sy & syms or not sy:
+                keep.append(c)
+                if not sy <= syms:
+                    syms |= sy
+                    changed = True
+            else:
+                nxt.append((c, sy))
+        rest = nxt
+    return keep
+
+
 def cvc5_decide(solver, timeout_s=10):
     try:
         smt = solver.to_smt2()
@@ -85,6 +129,17 @@ class Result(dict):
 
 def discharge(name, kind, pc, goal, function=None, path=None, extra=(), replay=None, timeout_ms=None):
     verdict, model, ms, backend = prove(pc, goal, timeout_ms, extra)
+    if verdict == 'unknown' and timeout_ms is None:
+        # retry on the cone of influence of the goal (dropping assumptions is sound), then with a larger budget
+        sub = cone_of_influence(pc, goal)
+        if len(sub) < len(pc):
+            verdict, model, ms2, backend = prove(sub, goal, QUERY_TIMEOUT_MS, extra)
+            ms += ms2
+            if verdict == 'refuted':
+                verdict, model = 'unknown', None      # a model of a weakened pc proves nothing
+        if verdict == 'unknown':
+            verdict, model, ms2, backend = prove(pc, goal, QUERY_TIMEOUT_MS * 3, extra)
+            ms += ms2
     r = Result(name, kind, verdict, ms=ms, backend=backend, function=function, path=path)
     if model is not None:
         r['model'] = model_to_dict(model)
